@@ -197,7 +197,7 @@ def execute(fbin, outdir, cfg, p, schedule=None, append_runs=1):
 
 
 # ------------------------------------------------------------------ in-memory reference
-def reference(fbin, cfg):
+def reference(fbin, cfg, data):
     """batch-wise in-memory destriping with the documented margins, from the library's own building blocks"""
     N = cfg["nbatch"]
     kw = options(cfg)
@@ -206,7 +206,10 @@ def reference(fbin, cfg):
     ncv = h["sample_shift"].size
     ns, nc = sr.ns, sr.nc
     nc_out = kw.get("nc_out") or nc
-    _, k_kwargs, spatial = voltage._get_destripe_parameters(sr.fs, None, kw["k_kwargs"], kw["k_filter"])
+    if kw["k_filter"]:
+        spatial = lambda dat: voltage.kfilt(dat, **kw["k_kwargs"])  # noqa
+    else:
+        spatial = lambda dat: voltage.car(dat, **kw["k_kwargs"])  # noqa
     sos = scipy.signal.butter(N=3, Wn=300 / sr.fs * 2, btype="highpass", output="sos")
     taper = np.r_[0, scipy.signal.windows.cosine((TAPER - 1) * 2), 0]
     out = np.zeros((ns, nc_out), dtype=np.float64)
@@ -233,13 +236,13 @@ def reference(fbin, cfg):
         vals = chunk[:, lo:hi].T / np.asarray(sr.sample2volts)[None, :ncv]
         if "wrot" in kw:
             vals = vals @ kw["wrot"]
-        full = np.concatenate([vals, sr._raw[first + lo:first + hi, ncv:].astype(np.float64)], axis=1)
+        full = np.concatenate([vals, data[first + lo:first + hi, ncv:].astype(np.float64)], axis=1)
         out[first + lo:first + hi, :] = full[:, :nc_out]
         nbatches += 1
         if last == ns:
             break
         first += N - 2 * TAPER
-    sync = np.array(sr._raw[:, ncv:])
+    sync = np.array(data[:, ncv:])
     sr.close()
     return out, sync, nbatches, ncv
 
@@ -302,7 +305,7 @@ def _config_check(cfg):
     ntr += 1
     if exc1 is not None:
         return Res([("p1:exc:%s" % type(exc1).__name__, "%s with one worker raised %s: %s" % (ctx0, type(exc1).__name__, exc1))], o="exc")
-    ref, sync, nbatches, ncv = reference(fbin, cfg)
+    ref, sync, nbatches, ncv = reference(fbin, cfg, data)
     out1 = np.frombuffer(art1["out.bin"], dtype=odt)
     exp_len = (ns + cfg.get("ns2add", 0)) * nc_out * runs
     if out1.size != exp_len:
